@@ -137,33 +137,26 @@ func (node *PFCPNode) Serve() {
 				logger.PfcpLog.Errorln("error closing PFCPNode conn", err)
 			}
 
-			// Clear out the remaining pconn completions
-		clearLoop:
+			// Every PFCPConn shuts itself down on cancellation (removing its
+			// sessions from the datapath) and then reports on pConnDone:
+			// wait until all of them have done so.
 			for {
-				select {
-				case rAddr, ok := <-node.pConnDone:
-					{
-						if !ok {
-							// channel is closed, break
-							break clearLoop
-						}
-						node.pConns.Delete(rAddr)
-						logger.PfcpLog.Infoln("removed connection to", rAddr)
-					}
-				default:
-					// nothing to read from channel
-					break clearLoop
+				remaining := 0
+
+				node.pConns.Range(func(_, _ interface{}) bool {
+					remaining++
+					return true
+				})
+
+				if remaining == 0 {
+					break
 				}
+
+				rAddr := <-node.pConnDone
+				node.pConns.Delete(rAddr)
+				logger.PfcpLog.Infoln("removed connection to", rAddr)
 			}
 
-			if len(node.pConnDone) > 0 {
-				for rAddr := range node.pConnDone {
-					node.pConns.Delete(rAddr)
-					logger.PfcpLog.Infoln("removed connection to", rAddr)
-				}
-			}
-
-			close(node.pConnDone)
 			logger.PfcpLog.Infoln("done waiting for PFCPConn completions")
 
 			node.upf.Exit()
